@@ -4,9 +4,10 @@
     Voucher backing ("the supply of the voucher coin of an external pair never exceeds the ERC-20 balance the
     module holds") does NOT hold for arbitrary external token contracts:
 
-    1. a token that charges the SENDER of a transfer a fee passes every check of convertCoinNativeERC20 (only
-       the receiver's balance is compared) while the module is debited more than the vouchers burnt
-       ([no_overdebit] of Proofs/ConvertVoucher.v is necessary) — finding, fixable in the module;
+    1. a token that charges the SENDER of a transfer a fee passed every check of convertCoinNativeERC20 as it
+       was before the repair c5eeeaa (only the receiver's balance was compared) while the module was debited more
+       than the vouchers burnt — finding C11 / O4, FIXED: the flow now also compares the module's balance
+       ([convert_coin_native_erc20_old] is the flow before the repair);
     2. a token whose balanceOf is not a view of its ledger passes the escrow check of convertERC20NativeToken
        without moving anything ([honest_view] is necessary) — inherent: the module can only ask the contract. *)
 From Teleport Require Import Base.Bytes Base.Outcome Model.Convert Model.ConvertTokens
@@ -58,28 +59,47 @@ Proof.
   - intros id p id' p' [H|[]] [H'|[]]. inversion H; inversion H'; subst. reflexivity.
 Qed.
 
-(** ** 1. Sender-side fee *)
+(** ** 1. Sender-side fee (repaired by c5eeeaa; the statement is about the flow as it was) *)
 Definition fee_store : zmap := [(U1, 1000); (1, 1)].          (* U1 holds 1000; senderFee = 1 *)
-Definition fee_history : list op := [to_voucher 100; to_token 50 U2s].
+
+(** state after converting 100 tokens into vouchers (the sender pays the fee: 101 debited, module holds 100) *)
+Definition fee_mid : state xstate := run xcall0 xcontract0 M0 (start fee_store) [to_voucher 100].
 
 Theorem C11_voucher_backing_sender_fee_refuted :
-  exists (s : state xstate) (l : list op),
-    WFv s /\ VBacked M0 ledger0 s /\ Forall (not_module_signed M0) l /\
-    (* both conversions succeed ... *)
-    snd (deliver xcall0 xcontract0 M0 s (match l with OMsg m :: _ => m | _ => MCC (Build_msg_cc [] 0 [] 0 false) end)) = 0%nat /\
-    (* ... and afterwards 50 vouchers circulate while the module holds 49 tokens *)
-    sget (s_supply (run xcall0 xcontract0 M0 s l)) VOUCHER = 50 /\
-    ledger0 (s_ext (run xcall0 xcontract0 M0 s l)) TOK M0 = 49 /\
-    ~ VBacked M0 ledger0 (run xcall0 xcontract0 M0 s l).
+  (* a well-formed, fully backed state ... *)
+  WFv fee_mid /\ VBacked M0 ledger0 fee_mid /\
+  sget (s_supply fee_mid) VOUCHER = 100 /\ ledger0 (s_ext fee_mid) TOK M0 = 100 /\
+  (* ... in which the PRE-FIX flow converts 50 vouchers back (every check passes) ... *)
+  exists s', convert_coin_native_erc20_old xcall0 M0 fee_mid the_pair VOUCHER 50 U2 U1 = Ok s' /\
+    (* ... leaving 50 vouchers in circulation backed by 49 tokens *)
+    sget (s_supply s') VOUCHER = 50 /\ ledger0 (s_ext s') TOK M0 = 49 /\ ~ VBacked M0 ledger0 s'.
 Proof.
-  exists (start fee_store), fee_history.
-  split; [apply start_wf|]. split.
-  { intros id p v [H|[]] _ D _. inversion H; subst. cbn in D. inversion D; subst. vm_compute. discriminate. }
   split.
-  { repeat constructor; unfold not_module_signed; cbn; intro H; inversion H. }
-  split; [vm_compute; reflexivity|]. split; [vm_compute; reflexivity|]. split; [vm_compute; reflexivity|].
+  { split; [split; [|split; [|split]]|]; cbn.
+    - repeat constructor. intros [].
+    - intros id p [H|[]]. inversion H; subst. cbn. split; [reflexivity|]. split; [repeat constructor; intros []|].
+      intros d [<-|[]]. vm_compute. reflexivity.
+    - intros d p H. change (s_pairs fee_mid) with [(PID, the_pair)] in H. change (s_denom fee_mid) with [(VOUCHER, PID)] in H.
+      cbn [aget] in H. destruct (bytes_eqb VOUCHER d) eqn:E.
+      + apply bytes_eqb_eq in E; subst d. vm_compute in H. inversion H; subst. left; reflexivity.
+      + vm_compute in H. discriminate.
+    - intros p [H|[]]. inversion H.
+    - intros id p id' p' [H|[]] [H'|[]]. inversion H; inversion H'; subst. reflexivity. }
+  split.
+  { intros id p v [H|[]] _ D _. inversion H; subst. cbn in D. inversion D; subst. vm_compute. discriminate. }
+  split; [vm_compute; reflexivity|]. split; [vm_compute; reflexivity|].
+  eexists. split; [vm_compute; reflexivity|].
+  split; [vm_compute; reflexivity|]. split; [vm_compute; reflexivity|].
   intro Bk. specialize (Bk PID the_pair VOUCHER). vm_compute in Bk. apply Bk; try reflexivity. left; reflexivity.
 Qed.
+
+(** the repaired flow refuses that conversion (and [deliver] then leaves the state unchanged) *)
+Theorem C11_sender_fee_now_refused :
+  convert_coin_native_erc20 xcall0 M0 fee_mid the_pair VOUCHER 50 U2 U1 = Err /\
+  deliver xcall0 xcontract0 M0 fee_mid
+    (MCC {| cc_denom := VOUCHER; cc_amount := 50; cc_receiver := U2s; cc_sender := U1; cc_sender_ok := true |})
+  = (fee_mid, 1%nat).
+Proof. split; vm_compute; reflexivity. Qed.
 
 (** ** 2. balanceOf that is not a view of the ledger *)
 Definition fake_store : zmap := [(U1, 1000); (9, 1); (7, M0)]. (* fakeCredit on, lieAddr = module *)
